@@ -6,7 +6,8 @@ import CalVerif.Model.DeData
     `[hist] de <range> <cfg> <shape> <n> <sched> <std>`
         range  = `E` | `sr,sc,h,w/<cell>,<cell>,…` (row-major)
         cell   = `I:<i64>` `F:<16 hex>` `S:<utf8 hex|->` `B:0|1` `D:<16 hex>` `DI:<hex>` `DU:<hex>` `E:<kind>` `_`
-        cfg    = `N` | `A` | `C` | `C/<hex>/<hex>…` | `W-` | `W/<hex>…` (with_deserialize_headers: not a struct / struct fields)
+        cfg    = `N` | `A` | `C` | `C/<hex>/<hex>…` | `W-` | `W/<hex>…` (with_deserialize_headers: not a struct / struct fields),
+                 optionally followed by `+h1` / `+h0` … (`has_headers(true/false)` calls on that builder)
         shape  = `seq` | `map`
         n      = number of `next` calls, or an op list `x,n2,s1,t2:3,k2,l,c,h` (next, nth(2), skip(1).next(), step_by(2).take(3),
                  take(2), last(), count(), size_hint only — each on `by_ref()`; adaptors are mapped to the `next`/`nth`
@@ -61,13 +62,22 @@ def parseRange (w : String) : Option (Range.Rng Data) :=
      | _, _ => none)
   | _ => none
 
-def parseCfg (w : String) : Option Headers :=
+def parseCfgBase (w : String) : Option Headers :=
   if w = "N" then some .none else if w = "A" then some .all else
   match w.splitOn "/" with
   | "C" :: names => (names.mapM strOfHex).map Headers.custom
   | ["W-"] => some (withDeserializeHeaders none)
   | "W" :: names => (names.mapM strOfHex).map fun ns => withDeserializeHeaders (some ns)
   | _ => none
+
+/-- `<constructor>+h1+h0…`: the constructor's configuration followed by `has_headers(true|false)` calls -/
+def parseCfg (w : String) : Option Headers :=
+  match w.splitOn "+" with
+  | base :: calls =>
+    (match parseCfgBase base, calls.mapM (fun c => if c = "h1" then some true else if c = "h0" then some false else none) with
+     | some b, some cs => some (builderCalls b cs)
+     | _, _ => none)
+  | [] => none
 
 def parseTarget (w : String) : Option Target :=
   match w with
